@@ -13,6 +13,7 @@ Dynamic Time Warping (DTW)
 import logging
 import array
 import math
+import numbers
 
 from . import ed
 from . import util
@@ -225,7 +226,7 @@ class DTWSettings:
 
     def split_psi(self):
         psi_1b = psi_1e = psi_2b = psi_2e = 0
-        if type(self.psi) is int:
+        if isinstance(self.psi, numbers.Integral):  # also NumPy integers
             psi_1b = psi_1e = psi_2b = psi_2e = self.psi
         elif type(self.psi) in [tuple, list]:
             psi_1b, psi_1e, psi_2b, psi_2e = self.psi
